@@ -238,6 +238,13 @@ SIG = {
                                [('segwit_hrp', 'List Char'), ('self_segwit_num_version', 'Int'), ('address', 'List Char')], 'Bytes'),
     'segwit_to_string': ('keys.py', 'SegwitAddress.to_string',
                          [('segwit_hrp', 'List Char'), ('self_segwit_num_version', 'Int'), ('self_witness_program', 'Bytes')], 'Option (List Char)'),
+    # SegwitAddress.__init__ called with address= and/or witness_program= (script keeps its default None): the numeric witness version of
+    # the class string and the program stored; PublicKey.get_segwit_address (the P2WPKH object: version 0 and HASH160 of the compressed key)
+    'segwit_init': ('keys.py', 'SegwitAddress.__init__',
+                    [('segwit_hrp', 'List Char'), ('address', 'Option (List Char)'), ('witness_program', 'Option Bytes'), ('version', 'String')],
+                    'Int × Bytes'),
+    'pubkey_get_segwit_address': ('keys.py', 'PublicKey.get_segwit_address',
+                                  [('segwit_hrp', 'List Char'), ('hashlib_sha256', 'Bytes → Bytes'), ('self_key_string', 'Bytes')], 'Int × Bytes'),
     # addresses derived from a public key: the hash160 check (a real string: len, int(., 16) under try/except), the constructor called
     # with hash160 only (what self.hash160 is set to), PublicKey.get_address (the stored hex string of the P2PKH address object)
     'is_hash160_valid': ('keys.py', 'Address._is_hash160_valid', [('hash160', 'List Char')], 'Bool'),
@@ -279,7 +286,7 @@ SCH_CALLS = {'tagged_hash': ('schnorr_tagged_hash', True), 'bytes_from_int': ('s
              'has_even_y': ('schnorr_has_even_y', False)}
 SCH_BYTES = {'tagged_hash', 'bytes_from_int', 'bytes_from_point', 'xor_bytes'}
 POINT = 'Option (Int × Int)'
-PUBFUNS = {'pubkey_to_hex', 'pubkey_to_x_only_hex', 'pubkey_is_y_even', 'pubkey_to_hash160', 'pubkey_get_address'}
+PUBFUNS = {'pubkey_to_hex', 'pubkey_to_x_only_hex', 'pubkey_is_y_even', 'pubkey_to_hash160', 'pubkey_get_address', 'pubkey_get_segwit_address'}
 # record types: field order of the call `<obj>.to_bytes()` on a loop variable
 REC_TYPE = {'txinput_to_bytes': 'Py.PyTxIn', 'txoutput_to_bytes': 'Py.PyTxOut', 'txwitness_to_bytes': 'Py.PyWit'}
 TOK_FIELDS = {'script_pubkey', 'script_sig'}
@@ -296,7 +303,8 @@ STRFUNS = {'bech32_encode': {'combined': 'List Int'},
            'pubkey_from_hex': {'first_byte_in_hex': 'List Char', 'y_values': 'List Int'},
            'is_hash160_valid': {}, 'address_init_hash160': {}, 'pubkey_get_address': {'addr_string_hex': 'List Char'},
            'segwit_address_to_hash': {'witness_version': 'Option Int', 'witness_int_array': 'Option (List Int)'},
-           'segwit_to_string': {'witness_int_array': 'List Int'}}
+           'segwit_to_string': {'witness_int_array': 'List Int'}, 'segwit_init': {'segwit_num_version': 'Int'},
+           'pubkey_get_segwit_address': {}}
 STR_DEFAULT = {'Int': '(0 : Int)', 'List Char': '([] : List Char)', 'List Int': '([] : List Int)'}
 # callees by Python name inside bech32.py: (generated name, returns an Option?)
 STR_CALLS = {'bech32_create_checksum': ('bech32_create_checksum', False), 'bech32_verify_checksum': ('bech32_verify_checksum', True),
@@ -311,7 +319,7 @@ NONLOCAL_STATE = {'traverse_level': 'traversed'}
 # utils.py's tweak functions: which locals are curve points; hex strings (of an even number of digits) are modelled as the bytes they denote
 TWEAKFUNS = {'negate_privkey': set(), 'tweak_taproot_pubkey': {'P', 'Q'}, 'tweak_taproot_privkey': set(), 'blockheader_target': set(),
              'pubkey_to_hex': set(), 'pubkey_to_x_only_hex': set(), 'pubkey_is_y_even': set(), 'pubkey_to_hash160': set(),
-             'pubkey_from_hex': set(), 'pubkey_get_address': set()}
+             'pubkey_from_hex': set(), 'pubkey_get_address': set(), 'pubkey_get_segwit_address': set()}
 TWEAK_CALLS = {'point_add': 'schnorr_point_add', 'point_mul': 'schnorr_point_mul', 'full_pubkey_gen': 'schnorr_full_pubkey_gen',
                'negate_privkey': 'negate_privkey'}
 # parsers: `x.hex()` of bytes is the same data (hex strings are modelled as the bytes they denote), struct.unpack_from
@@ -553,6 +561,23 @@ class Tr:
         if (isinstance(n, ast.Attribute) and isinstance(n.value, ast.Name) and n.value.id == 'self' and 'self_' + n.attr in s.params
                 and s.name in ('segwit_address_to_hash', 'segwit_to_string')):
             return 'self_' + n.attr
+        if s.name == 'segwit_init':
+            if isinstance(n, ast.Name) and n.id in ('P2WPKH_ADDRESS_V0', 'P2WSH_ADDRESS_V0', 'P2TR_ADDRESS_V1') and n.id not in s.declared:
+                return lean_str(CONST_STRS[n.id])
+            if isinstance(n, ast.Name) and n.id == 'version': return 'version'
+            if isinstance(n, ast.Name) and n.id in ('address', 'witness_program'): return s.eff(f'Py.unwrap {n.id}')
+            if (isinstance(n, ast.Call) and isinstance(n.func, ast.Name) and n.func.id == '_address_to_hash' and len(n.args) == 1
+                    and not n.keywords):       # (self.… inside __init__ is rewritten to a plain name)
+                return s.eff(f'segwit_address_to_hash segwit_hrp segwit_num_version {s.e(n.args[0])}')
+            if isinstance(n, ast.Tuple) and len(n.elts) == 2: return f'({s.e(n.elts[0])}, {s.e(n.elts[1])})'
+        if s.name == 'pubkey_get_segwit_address':
+            if (isinstance(n, ast.Call) and isinstance(n.func, ast.Name) and n.func.id == 'P2wpkhAddress' and not n.args
+                    and len(n.keywords) == 1 and n.keywords[0].arg == 'witness_program' and s.isbytes(n.keywords[0].value)):
+                ver = s.check_subclass_ctor('P2wpkhAddress', ['address', 'witness_program', 'version'], base='SegwitAddress', fixed={'version'})
+                return s.eff(f'segwit_init segwit_hrp none (some {s.e(n.keywords[0].value)}) {lean_str(CONST_STRS[ver["version"]])}')
+            if (isinstance(n, ast.Call) and isinstance(n.func, ast.Attribute) and n.func.attr == '_to_hash160' and isinstance(n.func.value, ast.Name)
+                    and n.func.value.id == 'self' and len(n.args) == 1 and not n.keywords):
+                return s.eff(f'pubkey_to_hash160 hashlib_sha256 self_key_string {s.cond(n.args[0])}')
         if isinstance(n, ast.Constant) and isinstance(n.value, str):
             return f'({lean_str(n.value)}.toList : List Char)'
         if isinstance(n, ast.Name) and n.id in s.optvars:
@@ -1272,26 +1297,32 @@ class Tr:
                         return
         s.fail(n, f'class {cls} not found')
 
-    def check_subclass_ctor(s, cls, params):
-        """`cls.__init__(self, p1=None, …)` only forwards its parameters to the base constructor under the same names"""
+    def check_subclass_ctor(s, cls, params, base='Address', fixed=()):
+        """`cls.__init__(self, p1=None, …)` only forwards its parameters to the base constructor under the same names; the parameters in
+        `fixed` are replaced by a module constant (returned by name)"""
         for c in s.tree.body:
             if isinstance(c, ast.ClassDef) and c.name == cls:
                 for m in c.body:
                     if isinstance(m, ast.FunctionDef) and m.name == '__init__':
                         names = [a.arg for a in m.args.args[1:]]
                         body = [st for st in m.body if not (isinstance(st, ast.Expr) and isinstance(st.value, ast.Constant))]
-                        ok = (names == params and len(m.args.defaults) == len(params)
-                              and all(isinstance(d, ast.Constant) and d.value is None for d in m.args.defaults)
+                        dflt = dict(zip(names[len(names) - len(m.args.defaults):], m.args.defaults))
+                        ok = (names == params and all((p_ in fixed) or (isinstance(dflt.get(p_), ast.Constant) and dflt[p_].value is None) for p_ in params)
                               and len(body) == 1 and isinstance(body[0], ast.Expr) and isinstance(body[0].value, ast.Call))
+                        consts = {}
                         if ok:
                             c_ = body[0].value
                             ok = (isinstance(c_.func, ast.Attribute) and c_.func.attr == '__init__' and isinstance(c_.func.value, ast.Call)
                                   and getattr(c_.func.value.func, 'id', '') == 'super' and not c_.func.value.args and not c_.args
-                                  and sorted(k.arg for k in c_.keywords) == sorted(params)
-                                  and all(isinstance(k.value, ast.Name) and k.value.id == k.arg for k in c_.keywords))
+                                  and sorted(k.arg for k in c_.keywords) == sorted(params))
+                            for k in (c_.keywords if ok else []):
+                                if k.arg in fixed:
+                                    if isinstance(k.value, ast.Name) and k.value.id in CONST_STRS: consts[k.arg] = k.value.id
+                                    else: ok = False
+                                elif not (isinstance(k.value, ast.Name) and k.value.id == k.arg): ok = False
                         if not ok: s.fail(m, f'{cls}.__init__ does more than forward {params} to the base constructor')
-                        if [b_.id for b_ in c.bases if isinstance(b_, ast.Name)] != ['Address']: s.fail(c, f'{cls} base class')
-                        return
+                        if [b_.id for b_ in c.bases if isinstance(b_, ast.Name)] != [base]: s.fail(c, f'{cls} base class')
+                        return consts
         s.fail(s.fnode, f'class {cls} not found')
 
     def recsub(s, n):
@@ -1372,6 +1403,8 @@ class Tr:
         return False
 
     def cond(s, n):
+        if s.name == 'segwit_init' and isinstance(n, ast.Name) and n.id in ('address', 'witness_program'):
+            return f'(match {n.id} with | some v_ => !(List.isEmpty v_) | none => false)'        # truthiness of None / a str
         t = s.e(n)
         if isinstance(n, (ast.Compare, ast.BoolOp)) or (isinstance(n, ast.UnaryOp) and isinstance(n.op, ast.Not)):
             return t
@@ -1651,6 +1684,9 @@ class Tr:
                 kw_ = '' if nm in s.declared else 'let mut '
                 s.declared.add(nm); s.hexvars.add(nm); s.bytesvars.add(nm)
                 return s.flush(ind) + [f'{ind}{kw_}{nm} := {hb}']
+        if s.name == 'segwit_init' and isinstance(st, ast.Return) and isinstance(st.value, ast.Tuple) and len(st.value.elts) == 2:
+            a_ = s.e(st.value.elts[0]); b_ = s.e(st.value.elts[1])
+            return s.flush(ind) + [f'{ind}return ({a_}, {b_})']
         if s.name == 'segwit_to_string' and isinstance(st, ast.Return) and isinstance(st.value, ast.Call):
             v = s.e(st.value)          # bech32.encode returns the address or None: the Option is handed on as it is
             return s.flush(ind) + [f'{ind}return {v}']
@@ -1982,6 +2018,50 @@ class Tr:
         node.body = [top]
         return node
 
+    def ctor_segwit(s, node):
+        """SegwitAddress.__init__ with script=None: `self.version = version` is the parameter itself, `self.segwit_num_version = k` a local,
+        an `elif script:` arm is dropped (script is None), and `self.witness_program = E` — the last thing a path does — returns
+        `(segwit_num_version, E)`."""
+        import copy as _copy
+        node = _copy.deepcopy(node)
+        defaults = {a.arg: d for a, d in zip(node.args.args[-len(node.args.defaults):], node.args.defaults)} if node.args.defaults else {}
+        if not ('script' in defaults and isinstance(defaults['script'], ast.Constant) and defaults['script'].value is None):
+            s.fail(node, 'constructor parameter script no longer defaults to None')
+        body = [st for st in node.body if not (isinstance(st, ast.Expr) and isinstance(st.value, ast.Constant))]
+        def self_store(st, field):
+            return (isinstance(st, ast.Assign) and len(st.targets) == 1 and isinstance(st.targets[0], ast.Attribute)
+                    and isinstance(st.targets[0].value, ast.Name) and st.targets[0].value.id == 'self' and st.targets[0].attr == field)
+        if not (body and self_store(body[0], 'version') and isinstance(body[0].value, ast.Name) and body[0].value.id == 'version'):
+            s.fail(node, 'constructor shape: self.version = version')
+        body = body[1:]
+        class V(ast.NodeTransformer):
+            def visit_Assign(self, st):
+                if self_store(st, 'segwit_num_version'):
+                    return ast.copy_location(ast.Assign(targets=[ast.Name(id='segwit_num_version', ctx=ast.Store())], value=st.value), st)
+                return st
+            def visit_If(self, st):
+                self.generic_visit(st)
+                if len(st.orelse) == 1 and isinstance(st.orelse[0], ast.If) and isinstance(st.orelse[0].test, ast.Name) \
+                        and st.orelse[0].test.id == 'script':
+                    st.orelse = st.orelse[0].orelse          # `elif script:` with script None: not taken
+                return st
+        body = [V().visit(st) for st in body]
+        def tail(block):
+            if not block: return
+            last = block[-1]
+            if self_store(last, 'witness_program'):
+                block[-1] = ast.copy_location(ast.Return(value=ast.Tuple(elts=[ast.Name(id='segwit_num_version', ctx=ast.Load()), last.value],
+                                                                         ctx=ast.Load())), last)
+            elif isinstance(last, ast.If): tail(last.body); tail(last.orelse)
+        tail(body)
+        for st in body:
+            for x in ast.walk(st):
+                if isinstance(x, ast.Attribute) and isinstance(x.value, ast.Name) and x.value.id == 'self' and isinstance(x.ctx, ast.Store):
+                    s.fail(x, 'self.* stored other than version / segwit_num_version / the final witness_program')
+                if isinstance(x, ast.Name) and x.id == 'script': s.fail(x, 'the constructor reads script, which is None')
+        node.body = body
+        return node
+
     def ctor_recover_branch(s, node):
         """PublicKey.__init__ called as PublicKey(message=…, signature=…): hex_str keeps its default None, so `if hex_str:` is not taken and
         the translation is the `elif message or signature: … else: raise` part.  `self.key = E` as the last statement becomes `return E`."""
@@ -2230,6 +2310,8 @@ class Tr:
             node = s.ctor_recover_branch(node)
         if s.name == 'address_init_hash160':
             node = s.ctor_branch(node, 'hash160', ['address', 'script'], 'hash160')
+        if s.name == 'segwit_init':
+            node = s.ctor_segwit(node)
         strpre = []
         if s.name in STRFUNS:
             for nm, T_ in STRFUNS[s.name].items():
@@ -2422,7 +2504,7 @@ def main():
         CONSTS['Secp256k1Params._order'] = f'({ut.Secp256k1Params._order} : Int)'
         CONSTS['Secp256k1Params._field'] = f'({ut.Secp256k1Params._field} : Int)'
         CONSTS['Secp256k1Params._p'] = f'({ut.Secp256k1Params._p} : Int)'
-        for k in ('P2PKH_ADDRESS', 'P2SH_ADDRESS'): CONST_STRS[k] = getattr(consts, k)
+        for k in ('P2PKH_ADDRESS', 'P2SH_ADDRESS', 'P2WPKH_ADDRESS_V0', 'P2WSH_ADDRESS_V0', 'P2TR_ADDRESS_V1'): CONST_STRS[k] = getattr(consts, k)
         CONSTS['HEADER_SIZE'] = f'({consts.HEADER_SIZE} : Int)'
         CONSTS['NEGATIVE_SATOSHI'] = f'({consts.NEGATIVE_SATOSHI} : Int)'
         for k in ('ABSOLUTE_TIMELOCK_SEQUENCE', 'REPLACE_BY_FEE_SEQUENCE', 'EMPTY_TX_SEQUENCE'):
